@@ -138,7 +138,28 @@ func genKey() *rapid.Generator[string] {
 	})
 }
 
-var blanks = []string{" ", "\t", "  ", " \t", "\t "}
+// blanks: optional whitespace of the header grammar, and other characters
+// that are white space to strings.TrimSpace (they are data in a value).
+var blanks = []string{" ", "\t", "  ", " \t", "\t ", " ", "\t", "\r", "\n", "\v", "\f", "\u0085", "\u00a0", "\u2028", "\u3000"}
+
+// boundaryRunes: first / last rune of every UTF-8 width, the runes next to
+// the surrogate gap, and Unicode white space.
+var boundaryRunes = []rune{0x80, 0x85, 0xA0, 0x7FF, 0x800, 0x1680, 0x2000, 0x2028, 0x2029, 0x3000, 0xD7FF, 0xE000, 0xFFFE, 0xFFFF, 0x10000, 0x10FFFF, 0xFFFD}
+
+// genRune: the hostile alphabet, every ASCII character (controls included)
+// and the boundary runes.
+func genRune() *rapid.Generator[rune] {
+	return rapid.Custom(func(t *rapid.T) rune {
+		switch k := rapid.IntRange(0, 9).Draw(t, "rk"); {
+		case k < 6:
+			return rapid.SampledFrom(vk.HostileRunes).Draw(t, "r")
+		case k < 9:
+			return rune(rapid.IntRange(0, 0x7f).Draw(t, "ascii"))
+		default:
+			return rapid.SampledFrom(boundaryRunes).Draw(t, "br")
+		}
+	})
+}
 
 // genValue draws valid UTF-8 over the hostile alphabet, with a bias to
 // blanks at either end.
@@ -150,7 +171,7 @@ func genValue(maxRunes int) *rapid.Generator[string] {
 			sb.WriteString(rapid.SampledFrom(blanks).Draw(t, "lb"))
 		}
 		for i := 0; i < n; i++ {
-			sb.WriteRune(rapid.SampledFrom(vk.HostileRunes).Draw(t, "r"))
+			sb.WriteRune(genRune().Draw(t, "r"))
 		}
 		if rapid.IntRange(0, 5).Draw(t, "trail") == 0 {
 			sb.WriteString(rapid.SampledFrom(blanks).Draw(t, "tb"))
@@ -159,9 +180,16 @@ func genValue(maxRunes int) *rapid.Generator[string] {
 	})
 }
 
-func genProps() *rapid.Generator[[]AProp] {
+func genProps() *rapid.Generator[[]AProp] { return genPropsN(false) }
+
+// genPropsN: 0..4 properties; with many, now and then 8, 9, 17 or 33.
+func genPropsN(many bool) *rapid.Generator[[]AProp] {
 	return rapid.Custom(func(t *rapid.T) []AProp {
-		n := rapid.SampledFrom([]int{0, 0, 0, 1, 1, 2, 3, 4}).Draw(t, "np")
+		counts := []int{0, 0, 0, 1, 1, 2, 3, 4}
+		if many {
+			counts = []int{0, 0, 0, 0, 0, 0, 1, 1, 1, 1, 2, 2, 3, 3, 4, 4, 4, 8, 9, 17, 33}
+		}
+		n := rapid.SampledFrom(counts).Draw(t, "np")
 		ps := make([]AProp, 0, n)
 		for i := 0; i < n; i++ {
 			p := AProp{}
@@ -186,7 +214,9 @@ func genProps() *rapid.Generator[[]AProp] {
 
 func genAMember() *rapid.Generator[AMember] {
 	return rapid.Custom(func(t *rapid.T) AMember {
-		return AMember{K: genKey().Draw(t, "key"), V: Text{S: genValue(12).Draw(t, "val")}, Props: genProps().Draw(t, "props")}
+		// mostly short values; now and then a long one of mixed content
+		maxRunes := rapid.SampledFrom([]int{12, 12, 12, 12, 12, 12, 12, 12, 40, 150}).Draw(t, "vmax")
+		return AMember{K: genKey().Draw(t, "key"), V: Text{S: genValue(maxRunes).Draw(t, "val")}, Props: genPropsN(true).Draw(t, "props")}
 	})
 }
 
@@ -405,6 +435,16 @@ func runA(c CaseA) ([]vk.Violation, vk.Info) {
 	want := model{}
 	implSize := map[string]int{}
 	escapes, hasProps := false, false
+	manyProps, longMixed, controls, otherASCII, boundary := false, false, false, false, false
+	scan := func(v string) {
+		for _, r := range v {
+			controls = controls || (r < 0x20 && r != '\t' && r != '\n' && r != 0) || r == '\r'
+			otherASCII = otherASCII || (r > 0x20 && r < 0x7f && !strings.ContainsRune(string(vk.HostileRunes), r))
+			for _, b := range boundaryRunes {
+				boundary = boundary || r == b
+			}
+		}
+	}
 	for _, am := range all {
 		if !isToken(am.K) {
 			panic("harness bug: generated a non-token key")
@@ -426,6 +466,12 @@ func runA(c CaseA) ([]vk.Violation, vk.Info) {
 			escapes = escapes || needsEscape(p.V)
 		}
 		hasProps = hasProps || len(mm.Props) > 0
+		manyProps = manyProps || len(mm.Props) >= 8
+		longMixed = longMixed || (am.V.N == 0 && am.V.Fill == 0 && len([]rune(am.V.S)) > 16)
+		scan(mm.V)
+		for _, p := range mm.Props {
+			scan(p.V)
+		}
 	}
 	total, maxMember := 0, 0
 	for _, n := range implSize {
@@ -455,8 +501,20 @@ func runA(c CaseA) ([]vk.Violation, vk.Info) {
 	info.ClassIf(overTotal, "over_total_bytes")
 	info.ClassIf(overMember, "over_member_bytes")
 	info.Class("mode_" + c.Mode)
+	info.ClassIf(manyProps, "member_with_8_or_more_properties")
+	info.ClassIf(longMixed, "long_value_of_mixed_content")
+	info.ClassIf(controls, "value_with_other_ascii_control")
+	info.ClassIf(otherASCII, "value_with_ascii_outside_hostile_alphabet")
+	info.ClassIf(boundary, "value_with_boundary_rune")
 
-	b, err := baggage.New(members...)
+	// the argument slice is lent with spare capacity and overwritten as soon
+	// as New has returned
+	lent := append(make([]baggage.Member, 0, len(members)+4), members...)
+	b, err := baggage.New(lent...)
+	for i := range lent {
+		lent[i] = baggage.Member{}
+	}
+	_ = append(lent, baggage.Member{})
 	if err != nil {
 		info.Class("new_rejects")
 		if !over {
@@ -510,7 +568,7 @@ func TestAPIRoundTrip(t *testing.T) {
 	vk.Run(t, vk.Spec[CaseA]{
 		Property: "C11", Check: "api_round_trip",
 		Rule: "baggage built with NewMemberRaw / NewKeyProperty / NewKeyValuePropertyRaw: token keys of 1..40 characters over all token characters, values of valid UTF-8 over a delimiter-heavy alphabet " +
-			"(,;=%\"\\ blanks at both ends, multi-byte and non-BMP runes), 0..4 properties (key only, empty value, value, repeated property keys), repeated member keys, and sizes aimed at 180±2 members, 4096±2 bytes per member, 8192±2 bytes in total; " +
+			"(,;=%\"\\ blanks and Unicode white space at both ends, every ASCII character incl. all controls, first / last rune of every UTF-8 width, non-BMP runes; mostly up to 12 runes, now and then up to 150), 0..4 and now and then 8, 9, 17 or 33 properties (key only, empty value, value, repeated property keys), repeated member keys, and sizes aimed at 180±2 members, 4096±2 bytes per member, 8192±2 bytes in total; " +
 			"non-trivial = some value or property value needs escaping, or a member has properties; distinct = distinct case encodings",
 		Quick: 20000, Thorough: 200000,
 		Gen: genA, Run: runA,
